@@ -570,6 +570,39 @@ theorem sim (H : Bytes → Bytes) (n : Nat) (_hn : 1 ≤ n) (flags : Bytes) (has
             rw [if_neg hr, if_pos hnd]
             exact ⟨_, rfl, rfl, post_parent_one hp hr postL⟩
 
+/-- **The node-count guard is dead code.**  Whenever the root traversal returns, the pre-order counter has
+    reached the total: `preorder_node < total_nodes` ("Not all nodes consumed") can never be true. -/
+theorem root_counter_reaches_total (depthOf : Nat → Nat) (H : Bytes → Bytes) (n : Nat) (hn : 1 ≤ n)
+    (flags : Bytes) (hashes : List Bytes) (hD : IsClog n (depthOf n)) (hD62 : depthOf n ≤ 62)
+    (r : Bytes) (st : St)
+    (ht : traverse H flags hashes (depthOf n) (totalNodes n) (depthOf n + 1) 0 ⟨0, 0, 0, []⟩ = .ok (r, st)) :
+    totalNodes n ≤ st.node := by
+  have htot := totalNodes_eq n (depthOf n) hn hD
+  have hw := width_eq_one hn hD
+  have hpre : Pre n (totalNodes n) (depthOf n) 0 (St.mk 0 0 0 []).node := by
+    refine ⟨fun a => ?_, fun _ => ?_, ?_⟩
+    · omega
+    · dsimp only; omega
+    · dsimp only
+      have : 2 ^ (depthOf n + 1) ≤ 2 ^ 63 := Nat.pow_le_pow_right (by decide) (by omega)
+      omega
+  have hs := sim H n hn flags hashes (depthOf n) (totalNodes n) hD62 (depthOf n) (depthOf n + 1) 0 0
+    ⟨0, 0, 0, []⟩ (by omega) (by omega) (by omega) hpre
+  rw [ht] at hs
+  revert hs
+  generalize extractAux H n (bitsOf flags) hashes (depthOf n) 0 (toSpec ⟨0, 0, 0, []⟩) = o
+  intro hs
+  cases o with
+  | none => simp [Rel] at hs
+  | some v =>
+    obtain ⟨r', pst⟩ := v
+    simp only [Rel] at hs
+    obtain ⟨st', hm, _, post⟩ := hs
+    injection hm with hm
+    injection hm with _ hm
+    subst hm
+    exact post.last (by omega)
+
 /-! ## 6. The all-consumed checks -/
 
 theorem extractAux_le (H : Bytes → Bytes) (n : Nat) (bits : List Bool) (hashes : List Bytes) :
